@@ -1,7 +1,8 @@
 (* C02/AllocProofs — the allocation requests of a run are bounded by
-   K0 + K1 * (bytes consumed):  K0 = MaxDepth * max(1024, MaxInitLen) * U pays for the containers
-   still open when the call ends (at most MaxDepth, each pre-sized to at most the cap), every
-   completed container is paid for by the bytes of its own elements. *)
+   K0 + K1 * (bytes consumed):  K0 = MaxDepth * max(1024, MaxInitLen) * (U + OV) pays for the
+   containers still open when the call ends (at most MaxDepth, each pre-sized to at most the cap),
+   every completed container is paid for by the bytes of its own elements.  Holds for zero-size
+   element types too since decInferLen caps them (F02-3). *)
 From Coq Require Import List ZArith Lia Bool.
 From Verif Require Import Gen.Consts C02.Alloc.
 Open Scope Z_scope.
@@ -9,64 +10,51 @@ Open Scope Z_scope.
 Lemma cap_ge : forall mil, 1024 <= cap mil.
 Proof. intros. unfold cap, maxInitLen. lia. Qed.
 
-(* the pre-sized allocation: never more than the cap (plus the small default of a stream without
-   length), and never more than the claimed length when there is one *)
-Lemma head_le_cap : forall cl mil u U, 0 <= u <= U ->
-  0 <= decInferLen cl (cap mil) u * u <= cap mil * U + (64 + 8 * U).
-Proof.
-  intros cl mil u U Hu. pose proof (cap_ge mil) as Hc. unfold decInferLen.
-  destruct ((cl =? 0) || (cl =? containerLenNil)); [nia |].
-  destruct (cl <? 0) eqn:Hneg.
-  - destruct (u =? 0) eqn:Hu0; [apply Z.eqb_eq in Hu0; subst; nia |].
-    apply Z.eqb_neq in Hu0. assert (0 < u) by lia.
-    assert (64 / u * u <= 64) by (rewrite Z.mul_comm; apply Z.mul_div_le; lia).
-    assert (0 <= 64 / u) by (apply Z.div_pos; lia).
-    destruct (Z.max_spec (64 / u) 8) as [[Hm ->] | [Hm ->]]; nia.
-  - apply Z.ltb_ge in Hneg.
-    destruct (u =? 0) eqn:Hu0; [apply Z.eqb_eq in Hu0; subst; nia |].
-    apply Z.eqb_neq in Hu0.
-    destruct (cap mil =? 0) eqn:Hc0; [apply Z.eqb_eq in Hc0; lia |].
-    cbv zeta. destruct (Z.min_spec cl (cap mil)) as [[Hm ->] | [Hm ->]]; nia.
-Qed.
-
-Lemma head_le_claimed : forall cl mil u, 0 <= cl -> 0 <= u -> decInferLen cl (cap mil) u * u <= cl * u.
+(* the pre-sized element COUNT: at most the cap when a length is claimed (whatever the element
+   size, zero included), at most the claimed length; a small constant when none is *)
+Lemma count_pos : forall cl mil u, 0 <= cl -> 0 <= u ->
+  0 <= decInferLen cl (cap mil) u <= cap mil /\ decInferLen cl (cap mil) u <= cl.
 Proof.
   intros cl mil u Hcl Hu. pose proof (cap_ge mil) as Hc. unfold decInferLen.
-  destruct ((cl =? 0) || (cl =? containerLenNil)); [nia |].
+  destruct ((cl =? 0) || (cl =? containerLenNil)); [lia |].
   destruct (cl <? 0) eqn:Hneg; [apply Z.ltb_lt in Hneg; lia |].
-  destruct (u =? 0) eqn:Hu0; [apply Z.eqb_eq in Hu0; subst; nia |].
   destruct (cap mil =? 0) eqn:Hc0; [apply Z.eqb_eq in Hc0; lia |].
-  cbv zeta. destruct (Z.min_spec cl (cap mil)) as [[Hm ->] | [Hm ->]]; nia.
+  cbv zeta. lia.
 Qed.
 
-Lemma head_neg : forall cl mil u U, cl < 0 -> 0 <= u <= U -> 0 <= decInferLen cl (cap mil) u * u <= 64 + 8 * U.
+Lemma count_neg : forall cl mil u, cl < 0 -> 0 <= u ->
+  0 <= decInferLen cl (cap mil) u /\ decInferLen cl (cap mil) u * u <= 64 + 8 * u /\ decInferLen cl (cap mil) u <= 64.
 Proof.
-  intros cl mil u U Hcl Hu. unfold decInferLen.
-  destruct ((cl =? 0) || (cl =? containerLenNil)); [nia |].
+  intros cl mil u Hcl Hu. unfold decInferLen.
+  destruct ((cl =? 0) || (cl =? containerLenNil)); [lia |].
   destruct (cl <? 0) eqn:Hneg; [| apply Z.ltb_ge in Hneg; lia].
-  destruct (u =? 0) eqn:Hu0; [apply Z.eqb_eq in Hu0; subst; nia |].
+  destruct (u =? 0) eqn:Hu0; [apply Z.eqb_eq in Hu0; subst; lia |].
   apply Z.eqb_neq in Hu0. assert (0 < u) by lia.
   assert (64 / u * u <= 64) by (rewrite Z.mul_comm; apply Z.mul_div_le; lia).
   assert (0 <= 64 / u) by (apply Z.div_pos; lia).
+  assert (64 / u <= 64) by (apply Z.div_le_upper_bound; lia).
   destruct (Z.max_spec (64 / u) 8) as [[Hm ->] | [Hm ->]]; nia.
 Qed.
 
 Section Proofs.
-  Variable md mil U KL : Z.
+  Variable md mil U KL OV : Z.
   Hypothesis HU : 0 <= U.
   Hypothesis HKL : 0 <= KL.
+  Hypothesis HOV : 0 <= OV.
 
-  Let S := (1 + G) * U.      (* what a parent charges per element: its slot and the growth *)
-  Let k0 (d : Z) (complete : bool) : Z := if complete then 0 else K0 md mil U d.
+  Let M := U + OV.
+  Let S := (1 + G) * M.      (* what a parent charges per element: its slot and the growth *)
+  Let k0 (d : Z) (complete : bool) : Z := if complete then 0 else K0 md mil U OV d.
 
   Lemma count_nonneg : forall rs, 0 <= count rs.
   Proof. induction rs; cbn [count]; lia. Qed.
 
   Lemma consumed_cont : forall cl u h ks c, consumed (Cont cl u h ks c) = h + consumeds ks. Proof. reflexivity. Qed.
-  Lemma alloc_cont : forall cl u h ks c, alloc mil (Cont cl u h ks c) = decInferLen cl (cap mil) u * u + G * u * count ks + allocs mil ks. Proof. reflexivity. Qed.
+  Lemma alloc_cont : forall cl u h ks c, alloc mil OV (Cont cl u h ks c) =
+    decInferLen cl (cap mil) u * (u + OV) + G * (u + OV) * count ks + allocs mil OV ks. Proof. reflexivity. Qed.
   Lemma completeR_cont : forall cl u h ks c, completeR (Cont cl u h ks c) = c && completeRs ks. Proof. reflexivity. Qed.
   Lemma consumeds_cons : forall r rs, consumeds (RCons r rs) = consumed r + consumeds rs. Proof. reflexivity. Qed.
-  Lemma allocs_cons : forall r rs, allocs mil (RCons r rs) = alloc mil r + allocs mil rs. Proof. reflexivity. Qed.
+  Lemma allocs_cons : forall r rs, allocs mil OV (RCons r rs) = alloc mil OV r + allocs mil OV rs. Proof. reflexivity. Qed.
   Lemma completeRs_cons : forall r rs, completeRs (RCons r rs) = completeR r && completeRs rs. Proof. reflexivity. Qed.
   Lemma count_cons : forall r rs, count (RCons r rs) = 1 + count rs. Proof. reflexivity. Qed.
   Lemma wf_cont : forall d cl u h ks c, wf md U KL d (Cont cl u h ks c) =
@@ -74,106 +62,89 @@ Section Proofs.
   Lemma wfs_cons : forall d r rs, wfs md U KL d (RCons r rs) =
     (wf md U KL d r /\ wfs md U KL d rs /\ (match rs with RNil => True | _ => completeR r = true end)). Proof. reflexivity. Qed.
 
-  Theorem alloc_bnd :
-    (forall r, forall d, wf md U KL d r -> d < md ->
-       1 <= consumed r /\ alloc mil r + S <= k0 d (completeR r) + K1 U KL * consumed r) /\
-    (forall rs, forall d, wfs md U KL d rs -> d < md ->
-       count rs <= consumeds rs /\ allocs mil rs + S * count rs <= k0 d (completeRs rs) + K1 U KL * consumeds rs).
+  Definition Pr (r : run) : Prop := forall d, wf md U KL d r -> d < md ->
+    1 <= consumed r /\ alloc mil OV r + S <= k0 d (completeR r) + K1 U KL OV * consumed r.
+  Definition Prs (rs : runs) : Prop := forall d, wfs md U KL d rs -> d < md ->
+    count rs <= consumeds rs /\ allocs mil OV rs + S * count rs <= k0 d (completeRs rs) + K1 U KL OV * consumeds rs.
+
+  Lemma P_leaf : forall c a, Pr (Leaf c a).
   Proof.
-    assert (HG : G = 4) by reflexivity.
-    assert (Hcap := cap_ge mil).
-    assert (HcU : 0 <= cap mil * U) by (apply Z.mul_nonneg_nonneg; lia).
-    assert (HK0 : forall d, d < md -> 0 <= K0 md mil U d) by (intros; unfold K0; apply Z.mul_nonneg_nonneg; lia).
-    assert (HK0s : forall d, K0 md mil U d = cap mil * U + K0 md mil U (d + 1)) by (intros; unfold K0; ring).
+    intros c a d (Hc & Ha) Hd. change (consumed (Leaf c a)) with c. change (alloc mil OV (Leaf c a)) with a.
+    change (completeR (Leaf c a)) with true. unfold k0, S, K1, M, G. split; [lia | nia].
+  Qed.
+
+  Lemma P_cont : forall cl u h ks, Prs ks -> forall c, Pr (Cont cl u h ks c).
+  Proof.
+    intros cl u h ks IH c d Hwf Hd. rewrite wf_cont in Hwf. destruct Hwf as (Hh & Hu & Hdep & Hks & Hcnt).
+    destruct (IH (d + 1) Hks Hdep) as (Hcc & Hall).
+    pose proof (count_nonneg ks) as Hc0. pose proof (cap_ge mil) as Hcap.
+    rewrite consumed_cont, alloc_cont, completeR_cont. split; [lia |].
+    assert (HK0s : K0 md mil U OV d = cap mil * M + K0 md mil U OV (d + 1)) by (unfold K0, M; ring).
+    assert (HK0n : 0 <= K0 md mil U OV (d + 1)) by (unfold K0; apply Z.mul_nonneg_nonneg; [lia | apply Z.mul_nonneg_nonneg; lia]).
+    set (m := u + OV) in *. assert (Hm : 0 <= m <= M) by (unfold m, M; lia).
+    set (n := count ks) in *. set (cs := consumeds ks) in *. set (A := allocs mil OV ks) in *.
+    set (X := decInferLen cl (cap mil) u) in *.
+    unfold k0 in *. unfold S, K1 in *. fold M in Hall |- *. unfold G in *.
+    assert (Hgrow : m * n <= M * n) by nia.
+    (* the head, in the three situations *)
+    destruct (Z_lt_le_dec cl 0) as [Hneg | Hpos].
+    - (* no claimed length: a small constant, charged to the head byte *)
+      destruct (count_neg cl mil u Hneg ltac:(lia)) as (HX0 & HXu & HX64). fold X in HX0, HXu, HX64.
+      assert (Hhead : X * m <= 64 + 64 * OV + 8 * M) by (unfold m, M; nia).
+      assert (Hh2 : 64 + 64 * OV + 8 * M <= (64 + 64 * OV + 8 * M) * h) by nia.
+      assert (Hh3 : 5 * M <= (KL + 5 * M) * h) by nia.
+      destruct c; cbn [andb]; [destruct (completeRs ks) |]; try rewrite HK0s; try (destruct (completeRs ks)); nia.
+    - destruct (count_pos cl mil u Hpos ltac:(lia)) as ((HX0 & HXc) & HXl). fold X in HX0, HXc, HXl.
+      assert (Hh3 : 5 * M <= (KL + 64 + 64 * OV + 13 * M) * h) by nia.
+      destruct c; cbn [andb].
+      + destruct (completeRs ks) eqn:Eks.
+        * (* completed: exactly the claimed number of elements, each paid by its own bytes *)
+          assert (Hn : n = cl) by (unfold n; auto).
+          assert (Hhead : X * m <= M * n) by nia.
+          nia.
+        * assert (Hhead : X * m <= cap mil * M) by nia. rewrite HK0s. nia.
+      + assert (Hhead : X * m <= cap mil * M) by nia. rewrite HK0s.
+        destruct (completeRs ks); nia.
+  Qed.
+
+  Lemma P_nil : Prs RNil.
+  Proof.
+    intros d _ _. change (count RNil) with 0. change (consumeds RNil) with 0. change (allocs mil OV RNil) with 0.
+    change (completeRs RNil) with true. unfold k0. lia.
+  Qed.
+
+  Lemma P_cons : forall r, Pr r -> forall rs, Prs rs -> Prs (RCons r rs).
+  Proof.
+    intros r IHr rs IHrs d Hwf Hd. rewrite wfs_cons in Hwf. destruct Hwf as (Hr & Hrs & Hlast).
+    destruct (IHr d Hr Hd) as (Hc1 & Ha1). destruct (IHrs d Hrs Hd) as (Hc2 & Ha2).
+    rewrite count_cons, consumeds_cons, allocs_cons, completeRs_cons. split; [lia |].
+    unfold k0 in *.
+    destruct rs as [| r2 rs2].
+    - change (completeRs RNil) with true in *. change (count RNil) with 0 in *.
+      change (consumeds RNil) with 0 in *. change (allocs mil OV RNil) with 0 in *. rewrite andb_true_r. nia.
+    - rewrite Hlast in *. cbn [andb]. nia.
+  Qed.
+
+  Theorem alloc_bnd : (forall r, Pr r) /\ (forall rs, Prs rs).
+  Proof.
     split.
-    - apply (run_mut
-        (fun r => forall d, wf md U KL d r -> d < md ->
-           1 <= consumed r /\ alloc mil r + S <= k0 d (completeR r) + K1 U KL * consumed r)
-        (fun rs => forall d, wfs md U KL d rs -> d < md ->
-           count rs <= consumeds rs /\ allocs mil rs + S * count rs <= k0 d (completeRs rs) + K1 U KL * consumeds rs)).
-      + (* leaf *)
-        intros c a d (Hc & Ha) Hd. change (consumed (Leaf c a)) with c. change (alloc mil (Leaf c a)) with a.
-        change (completeR (Leaf c a)) with true. unfold k0, S, K1. rewrite HG. split; [lia | nia].
-      + (* container *)
-        intros cl u h ks IH c d Hwf Hd. rewrite wf_cont in Hwf. destruct Hwf as (Hh & Hu & Hdep & Hks & Hcnt).
-        destruct (IH (d + 1) Hks Hdep) as (Hcc & Hall).
-        pose proof (count_nonneg ks) as Hc0.
-        rewrite consumed_cont, alloc_cont, completeR_cont. split; [lia |].
-        pose proof (head_le_cap cl mil u U Hu) as Hhead.
-        unfold k0 in *. unfold S, K1 in *. rewrite HG in *.
-        destruct c; cbn [andb].
-        * destruct (completeRs ks) eqn:Eks.
-          -- (* everything completed: paid by the bytes of the elements *)
-             destruct (Z_lt_le_dec cl 0) as [Hneg | Hpos].
-             ++ pose proof (head_neg cl mil u U Hneg Hu). nia.
-             ++ pose proof (head_le_claimed cl mil u Hpos ltac:(lia)) as Hcl.
-                assert (Hn : count ks = cl) by auto. rewrite <- Hn in Hcl at 2.
-                assert (u * count ks <= U * count ks) by nia.
-                assert (5 * U <= (KL + 64 + 13 * U) * h) by nia.
-                nia.
-          -- rewrite (HK0s d). nia.
-        * rewrite (HK0s d). pose proof (HK0 (d + 1) Hdep).
-          destruct (completeRs ks); nia.
-      + (* no children *)
-        intros d _ _. change (count RNil) with 0. change (consumeds RNil) with 0. change (allocs mil RNil) with 0.
-        change (completeRs RNil) with true. unfold k0. lia.
-      + (* a child and the rest *)
-        intros r IHr rs IHrs d Hwf Hd. rewrite wfs_cons in Hwf. destruct Hwf as (Hr & Hrs & Hlast).
-        destruct (IHr d Hr Hd) as (Hc1 & Ha1). destruct (IHrs d Hrs Hd) as (Hc2 & Ha2).
-        rewrite count_cons, consumeds_cons, allocs_cons, completeRs_cons. split; [lia |].
-        unfold k0 in *.
-        destruct rs as [| r2 rs2].
-        * change (completeRs RNil) with true in *. change (count RNil) with 0 in *.
-          change (consumeds RNil) with 0 in *. change (allocs mil RNil) with 0 in *. rewrite andb_true_r. nia.
-        * rewrite Hlast in *. cbn [andb]. nia.
-    - apply (runs_mut
-        (fun r => forall d, wf md U KL d r -> d < md ->
-           1 <= consumed r /\ alloc mil r + S <= k0 d (completeR r) + K1 U KL * consumed r)
-        (fun rs => forall d, wfs md U KL d rs -> d < md ->
-           count rs <= consumeds rs /\ allocs mil rs + S * count rs <= k0 d (completeRs rs) + K1 U KL * consumeds rs)).
-      + intros c a d (Hc & Ha) Hd. change (consumed (Leaf c a)) with c. change (alloc mil (Leaf c a)) with a.
-        change (completeR (Leaf c a)) with true. unfold k0, S, K1. rewrite HG. split; [lia | nia].
-      + intros cl u h ks IH c d Hwf Hd. rewrite wf_cont in Hwf. destruct Hwf as (Hh & Hu & Hdep & Hks & Hcnt).
-        destruct (IH (d + 1) Hks Hdep) as (Hcc & Hall).
-        pose proof (count_nonneg ks) as Hc0.
-        rewrite consumed_cont, alloc_cont, completeR_cont. split; [lia |].
-        pose proof (head_le_cap cl mil u U Hu) as Hhead.
-        unfold k0 in *. unfold S, K1 in *. rewrite HG in *.
-        destruct c; cbn [andb].
-        * destruct (completeRs ks) eqn:Eks.
-          -- destruct (Z_lt_le_dec cl 0) as [Hneg | Hpos].
-             ++ pose proof (head_neg cl mil u U Hneg Hu). nia.
-             ++ pose proof (head_le_claimed cl mil u Hpos ltac:(lia)) as Hcl.
-                assert (Hn : count ks = cl) by auto. rewrite <- Hn in Hcl at 2.
-                assert (u * count ks <= U * count ks) by nia.
-                assert (5 * U <= (KL + 64 + 13 * U) * h) by nia.
-                nia.
-          -- rewrite (HK0s d). nia.
-        * rewrite (HK0s d). pose proof (HK0 (d + 1) Hdep).
-          destruct (completeRs ks); nia.
-      + intros d _ _. change (count RNil) with 0. change (consumeds RNil) with 0. change (allocs mil RNil) with 0.
-        change (completeRs RNil) with true. unfold k0. lia.
-      + intros r IHr rs IHrs d Hwf Hd. rewrite wfs_cons in Hwf. destruct Hwf as (Hr & Hrs & Hlast).
-        destruct (IHr d Hr Hd) as (Hc1 & Ha1). destruct (IHrs d Hrs Hd) as (Hc2 & Ha2).
-        rewrite count_cons, consumeds_cons, allocs_cons, completeRs_cons. split; [lia |].
-        unfold k0 in *.
-        destruct rs as [| r2 rs2].
-        * change (completeRs RNil) with true in *. change (count RNil) with 0 in *.
-          change (consumeds RNil) with 0 in *. change (allocs mil RNil) with 0 in *. rewrite andb_true_r. nia.
-        * rewrite Hlast in *. cbn [andb]. nia.
+    - apply (run_mut Pr Prs P_leaf P_cont P_nil P_cons).
+    - apply (runs_mut Pr Prs P_leaf P_cont P_nil P_cons).
   Qed.
 
   (* one Decode call (depth 0): Sigma allocations <= K0 + K1 * bytes consumed <= K0 + K1 * length b *)
   Lemma alloc_lemma : forall (r : run) (len : Z),
     wf md U KL 0 r -> 0 < md -> consumed r <= len ->
-    alloc mil r <= md * (maxInitLen mil * U) + (KL + 64 + 13 * U) * len.
+    alloc mil OV r <= md * (maxInitLen mil * (U + OV)) + (KL + 64 + 64 * OV + 13 * (U + OV)) * len.
   Proof.
     intros r len Hwf Hmd Hlen.
     destruct (proj1 alloc_bnd r 0 Hwf Hmd) as (Hc & Ha).
-    assert (HK : K1 U KL = KL + 64 + 13 * U) by (unfold K1, G; ring). rewrite HK in Ha.
-    assert (0 <= k0 0 (completeR r) <= md * (maxInitLen mil * U)).
-    { unfold k0, K0, cap. pose proof (cap_ge mil). unfold cap in *. destruct (completeR r); nia. }
-    assert (0 <= S) by (unfold S, G; nia).
+    assert (HK : K1 U KL OV = KL + 64 + 64 * OV + 13 * (U + OV)) by (unfold K1, G; ring). rewrite HK in Ha.
+    assert (0 <= k0 0 (completeR r) <= md * (maxInitLen mil * (U + OV))).
+    { unfold k0, K0, cap. pose proof (cap_ge mil) as Hc1. unfold cap in Hc1.
+      assert (0 <= maxInitLen mil * (U + OV)) by (apply Z.mul_nonneg_nonneg; lia).
+      destruct (completeR r); nia. }
+    assert (0 <= S) by (unfold S, M, G; nia).
     nia.
   Qed.
 End Proofs.
